@@ -6,6 +6,14 @@ TECH = 'bounded symbolic execution of rustc MIR (own path-wise VM), z3-decided a
 CLAIMED = {
  'C14': dict(text='Bounded model checking by symbolic execution of the real MIR of Val::{equals,compare,cmp_coerced,is_truthy,inc} and binary_operator_fold::op: every law is discharged by z3 on every feasible path over two lazily symbolic values (all kinds, all doubles, all strings, arrays <= 2/3 elements).  Not a proof: bounds on array size/nesting; std is modelled.',
              ref='DESIGN.md §4 C14', note='Trusted: MIR text semantics as implemented by mirsym (validated per run against the native build on ~6000 operand vectors), std models (§2.4), z3 5.1.  Strings are opaque sequences with parse::<f64> uninterpreted.'),
+ 'C03': dict(text='Bounded model checking of the real evaluator kernels (plus/subtract/multiply/divide/negate/equals/compare/is_truthy/to_string_for_output, binary_operator_fold incl. short-circuit and list fold, ProduceVal::visit_unary_expression) against a reference coercion table: z3 compares result kind, payload term, error class and evaluated thunks on every feasible path over all 13 operators x 36 kind pairs with symbolic payloads.',
+             ref='DESIGN.md §4 C03', note='Trusted: std models, z3; the reference table is validated per run against golden answers recorded from the pinned tree (props/C03_golden.json) and the VM against the current native build.  Expression nesting depth 1 (evaluator is compositional); variables/statements are C04/C05.'),
+ 'C06': dict(text='One inductive step from an arbitrary shared state: an arbitrary Val and its derived clone (shared Rc), one array operation on the clone executed from MIR; z3/structural comparison with a reference array model, the original compared with its snapshot (independence), and no panic/UB edge reachable.',
+             ref='DESIGN.md §4 C06', note='Kernel level (Val/Array methods); nested subscript writes and argument passing at interpreter level are outside.  Numeric indices are split into classes (see evidence bounds).'),
+ 'C07': dict(text='Bounded model checking of Val::{split,join,cast,round_*} from MIR against reference definitions (std-documented split/join, IEEE roundToIntegral, scalar-value check, radix precondition as a panic edge) over bounded symbolic strings (split/join) and all doubles / all strings (cast, rounding).',
+             ref='DESIGN.md §4 C07', note='Kernel level; the into-destination statement protocol is outside.  parse::<f64>/from_str_radix digits are std (uninterpreted).'),
+ 'C10': dict(text='Self-composition over HashMap iteration order: Val::join, Display for arrays and array equality are executed from MIR under the insertion order and under every other permutation of a 2..3-entry dictionary; z3 asserts identical observables.  Plus a regenerated inventory of every hash-container iteration site in the crate MIR; an unanalysed site makes the check inconclusive.',
+             ref='DESIGN.md §4 C10', note='Kernel level; process-level repeatability is only used for replay (48 fresh processes per profile).'),
 }
 NA = {
 }
